@@ -109,6 +109,8 @@ def mutations(cfg: dict) -> Iterator[Tuple[str, dict, List[int]]]:
                     yield ("param-leaf", yamlrw.set_(cfg, path, mv), [i])
                 for mv in yamlrw.type_mutants(v) if not isinstance(v, (dict, list)) else []:
                     yield ("param-leaf-type", yamlrw.set_(cfg, path, mv), [i])
+                for mv in yamlrw.ulp_mutants(v) if not isinstance(v, (dict, list)) else []:
+                    yield ("param-leaf-ulp", yamlrw.set_(cfg, path, mv), [i])
                 if isinstance(v, dict):
                     yield ("param-add-key", yamlrw.set_(cfg, path + ("zz_new",), 1), [i])
                     for k in v:
@@ -135,6 +137,10 @@ def mutations(cfg: dict) -> Iterator[Tuple[str, dict, List[int]]]:
                         nv = list(vals)
                         nv[j] = nv[j] + 0.5
                         yield (f"sweep-sequence-element[{j}/{len(vals)}]", yamlrw.set_(cfg, valp, nv), [i])
+                        for tv in yamlrw.ulp_mutants(vals[j]):
+                            nv = list(vals)
+                            nv[j] = tv
+                            yield (f"sweep-sequence-element-ulp[{j}/{len(vals)}]", yamlrw.set_(cfg, valp, nv), [i])
                         for tv in yamlrw.type_mutants(vals[j]):
                             nv = list(vals)
                             nv[j] = tv
